@@ -287,9 +287,16 @@ func checkMsg(e Expect, msg any) []defect {
 	if hasRes == hasErr {
 		add("result-xor-error", fmt.Sprintf("result:%v error:%v", hasRes, hasErr))
 	}
+	unidentified := false // Parse error / Invalid Request: JSON-RPC lets the id be null
+	if eo, ok := isObj(er); ok && hasErr && id == nil && hasID {
+		if c, ok := isInt(eo["code"]); ok && (c.Int64() == -32700 || c.Int64() == -32600) {
+			unidentified = true
+		}
+	}
 	switch {
 	case !hasID:
 		add("error-without-id", "a response must carry an id member (null when the request's id could not be read)")
+	case unidentified:
 	case e.HasID:
 		eq, rounded := idEqual(e.ID, id)
 		if rounded {
@@ -442,6 +449,9 @@ func Judge(kind string, e Expect, o Observed) []finding {
 		}
 	case "unencodable":
 		wantCode(-32603)
+		if isErr && !strings.Contains(text, e.ErrText) {
+			add("unencodable-text-lost", text)
+		}
 	case "unparsable":
 		if isErr {
 			if code != -32700 {
